@@ -107,6 +107,7 @@ func runC06(c *Ctx) {
 		}
 	}
 	ruleNoGetBody(c, p, "C06.A")
+	ruleChainNotRetried(c, p, "C06.A")
 	c06Refusal(c, p)
 	c.Rule("C06.B", "the replay buffer retains exactly the bytes it handed out, at the offsets it handed them out", 9)
 	c06Retain(c, p)
@@ -733,8 +734,30 @@ func c06Retain(c *Ctx, p *Prog) {
 		}
 		return nlo, nhi, true
 	}
+	entry := rd.Blocks[0]
+	reachable := func(e Env, tgt ssa.Instruction) bool {
+		h, _ := (&Walk{Target: func(i ssa.Instruction) bool { return i == tgt }, Edge: EdgeUnder(e)}).FromBlock(entry)
+		return h != nil
+	}
 	for _, t := range []struct{ k, n int64 }{{3, 5}, {0, 5}} {
 		e := env(t.k, t.n, 10)
+		if !reachable(e, src) {
+			// replay-only call (k > 0): the replayed bytes are returned as they are and the source is not touched
+			okRet := t.k > 0
+			(&Walk{Target: func(i ssa.Instruction) bool {
+				if r, isR := i.(*ssa.Return); isR && i.Parent() == rd {
+					cv, ok := Eval(ReturnValue(r, 0), e)
+					x, _ := constant.Int64Val(constant.ToInt(cvOr(cv, ok)))
+					if !ok || x != t.k || !IsNilConst(ReturnValue(r, 1)) {
+						okRet = false
+					}
+				}
+				return false
+			}, Edge: EdgeUnder(e)}).FromBlock(entry)
+			c.Check("C06.B", fmt.Sprintf("read:source-fills-after-replayed[k=%d]", t.k), p, src.Pos(), okRet, "with replayed bytes in hand the call returns exactly them (k, nil) without reading the source", fmt.Sprintf("with %d bytes replayed the source is not read but the call does not return (%d, nil)", t.k, t.k))
+			c.OK("C06.B", fmt.Sprintf("read:retains-the-fresh-bytes[k=%d]", t.k), p, retain.Pos(), "no fresh bytes in a replay-only call: nothing to retain")
+			continue
+		}
 		lo, hi, ok := window(src.Call.Args[0], e)
 		c.Check("C06.B", fmt.Sprintf("read:source-fills-after-replayed[k=%d]", t.k), p, src.Pos(), ok && lo == t.k && hi == -1, "the source reads into p[k:]", fmt.Sprintf("with %d bytes replayed the source is read into p[%d:%d] rather than p[%d:]: replayed bytes are overwritten or a gap is left", t.k, lo, hi, t.k))
 		lo, hi, ok = window(retain.Call.Args[1], e)
@@ -742,7 +765,7 @@ func c06Retain(c *Ctx, p *Prog) {
 	}
 	// destination of the retain copy: buf[writeHead:]
 	dst := isBufSlice(retain.Call.Args[0])
-	e := env(3, 5, 10)
+	e := env(0, 5, 10)
 	dlo, ok1 := bound(dst.Low, e, 0)
 	c.Check("C06.B", "read:retains-at-writeHead", p, retain.Pos(), ok1 && dlo == 10 && dst.High == nil, "retained bytes are appended at writeHead", "retained bytes are not appended at buf[writeHead:]: the stored prefix is no longer the stream prefix")
 	// replay source: buf[readHead:writeHead] into p
@@ -766,12 +789,22 @@ func c06Retain(c *Ctx, p *Prog) {
 		c.Check("C06.B", "read:"+fld+"-advances-by-retained", p, rd.Pos(), okw, fld+" advances by the number of bytes retained", fld+" does not advance by exactly the number of retained bytes: the buffer claims more or fewer prefix bytes than it holds")
 	}
 	okres := true
-	for _, r := range Returns(rd) {
-		cv, ok := Eval(ReturnValue(r, 0), e)
-		x, _ := constant.Int64Val(constant.ToInt(cvOr(cv, ok)))
-		if !ok || x != 8 {
-			okres = false
+	for _, t := range []struct{ k, n int64 }{{3, 5}, {0, 5}} {
+		e2 := env(t.k, t.n, 10)
+		want := t.k + t.n
+		if !reachable(e2, src) {
+			want = t.k
 		}
+		(&Walk{Target: func(i ssa.Instruction) bool {
+			if r, isR := i.(*ssa.Return); isR && i.Parent() == rd {
+				cv, ok := Eval(ReturnValue(r, 0), e2)
+				x, _ := constant.Int64Val(constant.ToInt(cvOr(cv, ok)))
+				if !ok || x != want {
+					okres = false
+				}
+			}
+			return false
+		}, Edge: EdgeUnder(e2)}).FromBlock(entry)
 	}
 	c.Check("C06.B", "read:reports-k-plus-n", p, rd.Pos(), okres, "Read reports replayed+fresh bytes", "Read does not report replayed+fresh bytes: the uploader sends a body of the wrong length")
 }
